@@ -28,7 +28,7 @@ func (c *Decoder) nextFrame() *Frame {
 	buf := framePool.Get().(*[]byte) // nolint:errcheck
 	defer framePool.Put(buf)
 
-	if _, err := io.LimitReader(c.r, 1).Read(*buf); err != nil {
+	if _, err := io.ReadFull(c.r, (*buf)[:1]); err != nil {
 		return &Frame{
 			frameType: UNKNOWN,
 			size:      0,
@@ -49,7 +49,7 @@ func (c *Decoder) nextFrame() *Frame {
 		return c.fin
 	}
 
-	if _, err := io.LimitReader(c.r, 2).Read(*buf); err != nil {
+	if _, err := io.ReadFull(c.r, (*buf)[:2]); err != nil {
 		return &Frame{
 			frameType: UNKNOWN,
 			size:      0,
